@@ -352,9 +352,15 @@ def check_largest_le(rec, rep, r, exp, w0, tol):
         # Only values that stand clear of their lower neighbour by far more than the tolerance, so that a wrong answer is
         # wrong by (nearly) a whole step and not a matter of rounding.
         at_stored = [exp[0]] + [b for a, b in zip(exp, exp[1:]) if b - a > 64 * max(tol, EPS * abs(b))]
+        # the same questions asked with a whole number given as an int (a depth typed as 1000, a frame time as 2): a query is a
+        # number, whatever its Python type
+        whole = [int(v) for v in at_stored if v == int(v) and abs(v) < 2 ** 53]
         if len(at_stored) > 60:
             at_stored = at_stored[:20] + at_stored[len(at_stored) // 2 - 10:len(at_stored) // 2 + 10] + at_stored[-20:]
         qs += at_stored
+        if whole:
+            rec.add('int_typed_queries_on_float_sequences', len(whole[:40]))
+            qs += whole[:40]
     else:
         seen = set()
         for x in exp:
